@@ -65,7 +65,36 @@ def scenario_move(tp):
                 {'clock': c1, 'quant': 0, 'seed': None, 'body': body}]}
 
 
+def scenario_past(tp):
+    """Directed template: a routine schedules another one at a time point
+    that has already elapsed (sched_abs in the past).  The late task runs at
+    once but with the logical time it was scheduled for, in both modes; it is
+    the only other routine, so nothing races with it."""
+    cname = tp.choice(['sys', 't0'])
+    back = tp.choice([0.25, 0.5, 0.75, 1.5])
+    body = [['rec']]
+    for i in range(2 + tp.draw(4)):
+        body += [['wait', tp.choice([0.25, 0.5, 0.125])], ['rec']]
+        if tp.draw(2):
+            body.append(['msg', 200 + i])
+    root = [['rec'], ['wait', 1.0 + tp.draw(3) * 0.5], ['rec'],
+            ['spawna', 1, -back], ['wait', 8.0], ['rec']]
+    return {'t0': rprog.T0,
+            'clocks': [{'tempo': tp.choice([1, 2]), 'beats': 0}],
+            'routines': [
+                {'clock': 'sys', 'quant': None, 'seed': tp.draw(1000),
+                 'body': root},
+                {'clock': cname, 'quant': 0, 'seed': None, 'body': body}]}
+
+
 def gen_case(tp, tier):
+    if tp.draw(16) == 0:
+        kn = {'policy': tp.choice(C.POLICIES), 'lat': tp.choice([0, 4, 4]),
+              'cost': tp.choice([0.0, 5e-6]), 'stall_pm': 0,
+              'epoch': tp.choice(['exact', 'real']),
+              'time_yield': bool(tp.draw(2)), 'max_steps': 30000}
+        return {'prog': scenario_past(tp), 'knobs': kn, 'perturb': 1,
+                'family': 0, 'scenario': 'past'}
     if tp.draw(8) == 0:
         kn = {'policy': tp.choice(C.POLICIES), 'lat': tp.choice([0, 4, 4]),
               'cost': tp.choice([0.0, 5e-6]), 'stall_pm': 0,
@@ -170,7 +199,7 @@ def families(prog):
     parent = {}
     for i, r in enumerate(prog['routines']):
         for st in r['body']:
-            if st[0] in ('spawn', 'spawnd', 'embed'):
+            if st[0] in ('spawn', 'spawnd', 'embed', 'spawna'):
                 parent[st[1]] = i
     fam = {}
     for i, r in enumerate(prog['routines']):
@@ -473,6 +502,8 @@ def run_case(case, tape, ctx):
                              f'routine {victim} drew more')
     # 1. RT vs NRT
     ok, why = well_synchronised(prog, nrt['trace'])
+    if case.get('scenario') == 'past':
+        ok, why = True, None       # race-free by construction
     if ok and not case.get('scenario') and any(
             st[0] == 'resume' and len(st) > 2
             for r in prog['routines'] for st in r['body']):
@@ -480,13 +511,13 @@ def run_case(case, tape, ctx):
         # the same instant without leaving a trace of the second wake-up:
         # judged only in the directed scenario, which keeps them apart
         ok, why = False, ('moved-routine',)
-    if ok:
+    if ok and case.get('scenario') != 'past':
         # a routine that one world never got to run leaves no event there:
         # the real-time timeline must be free of conflicts as well
         # (physical order: unrelated events of different clocks inside one
         # margin window may appear in either order)
         ok, why = well_synchronised(prog, rt['trace'], slack=MARGIN)
-    if ok:
+    if ok and case.get('scenario') != 'past':
         # ... and so must the union of both (each world may have silenced a
         # different one of two routines that race, e.g. each pausing the
         # other at the same instant)
